@@ -27,6 +27,9 @@ pub struct Obs {
     /// final `{:?}` / `{:#?}` text and built shape of a second builder that was formatted (both ways) after every
     /// top-level call: printing is an observation, so neither may differ from the builder printed once
     pub debug_stepwise: Option<(Result<String, String>, Result<String, String>, Option<Vec<Vec<usize>>>)>,
+    /// `{:?}` text of the same registrations with every non-empty top-level name replaced by a fresh, separator-free
+    /// one: what is printed for an UNNAMED system cannot depend on what the other systems are called
+    pub debug_renamed: Option<Result<String, String>>,
     pub build_panic: Option<String>,
     pub layout: Option<Layout>,
     /// executed layout of the SAME dispatcher identified again after it has been used: after one clean dispatch,
@@ -93,6 +96,35 @@ pub fn observe(ops: &[Op], resmap: &[u8], need: Need) -> Obs {
         o.debug_pretty = Some(
             catch_unwind(AssertUnwindSafe(|| format!("{:#?}", reg.builder))).map_err(|p| payload_str(&*p)),
         );
+    }
+    if need.debug && ops.iter().any(|o| matches!(o, Op::Sys(x) if x.name.is_empty()) || matches!(o, Op::Batch(b) if b.name.is_empty())) && o.calls.iter().all(|c| c.panic.is_none()) {
+        let mut names: Vec<String> = Vec::new();
+        for op in ops {
+            let n = match op {
+                Op::Sys(x) => &x.name,
+                Op::Batch(b) => &b.name,
+                Op::Static(st) => &st.name,
+                _ => continue,
+            };
+            if !n.is_empty() && !names.contains(n) {
+                names.push(n.clone());
+            }
+        }
+        let f = |s: &String| -> String { names.iter().position(|x| x == s).map_or_else(|| s.clone(), |k| format!("renamed{}", k)) };
+        let ops2: Vec<Op> = ops
+            .iter()
+            .map(|op| match op {
+                Op::Sys(x) => Op::Sys(SysSpec { name: if x.name.is_empty() { String::new() } else { f(&x.name) }, deps: x.deps.iter().map(&f).collect(), ..x.clone() }),
+                Op::Batch(b) => Op::Batch(BatchSpec { name: if b.name.is_empty() { String::new() } else { f(&b.name) }, deps: b.deps.iter().map(&f).collect(), ..b.clone() }),
+                Op::Static(st) => Op::Static(StaticSpec { name: if st.name.is_empty() { String::new() } else { f(&st.name) }, deps: st.deps.iter().map(&f).collect(), ..st.clone() }),
+                x => x.clone(),
+            })
+            .collect();
+        let ctx_r = Ctx::new(info_n, resmap.to_vec());
+        let reg_r = register(&ops2, &ctx_r, None, false);
+        if reg_r.calls.iter().all(|c| c.panic.is_none()) {
+            o.debug_renamed = Some(debug_text(&reg_r.builder));
+        }
     }
     if need.debug {
         let ctx_s = Ctx::new(info_n, resmap.to_vec());
